@@ -463,6 +463,10 @@ pub struct RunResult {
     pub calls: usize,
     pub wrote_after_failure: bool,
     pub polls: u64,
+    /// the connection's token permit was available to another request while run() had not returned
+    pub permit_early: Option<String>,
+    /// the permit was still unavailable after run() returned
+    pub permit_stuck: bool,
 }
 
 /// Number of replies owed for the records completely contained in the first `lim` bytes
@@ -506,9 +510,18 @@ pub fn execute_with(case: &Case, h: &[Vec<Value>], random: Option<rand::rngs::St
         in_read: 0, rcuts, rpend, out: Vec::new(), wcuts, wpend, self_wake: false, stop_at, stop_now: false,
         parked_on_read: false, write_failed: false, wrote_after_failure: false, reads: 0, writes: 0, random, events: Vec::new(),
     }));
+    // the connection limit equals the number of tokens handed out below (MAX_CONNS - 1 spare tokens are held by the
+    // harness), so the connection's own token is the last permit: nobody else can get one while run() is in progress
     let mut config = Config::with_conns(MAX_CONNS.try_into().expect("nz"));
     config.buffer_size = case.b;
     let runner: Runner = config.async_runner();
+    let probe_waker: Waker = Arc::new(FlagWaker(AtomicBool::new(false))).into();
+    let mut spare: Vec<fastcgi_server::async_io::Token> = Vec::new();
+    for _ in 1..MAX_CONNS {
+        let fut = runner.get_token();
+        futures_util::pin_mut!(fut);
+        if let Poll::Ready(t) = fut.poll(&mut Context::from_waker(&probe_waker)) { spare.push(t); }
+    }
     let token = {
         let fut = runner.get_token();
         futures_util::pin_mut!(fut);
@@ -532,8 +545,9 @@ pub fn execute_with(case: &Case, h: &[Vec<Value>], random: Option<rand::rngs::St
     let io_w = MockIo(shared.clone());
     let flag = Arc::new(FlagWaker(AtomicBool::new(false)));
     let waker: Waker = flag.clone().into();
-    let mut res = RunResult { returned: false, panicked: None, spun: false, parked_on_read: false, in_read: 0, out: Vec::new(), log: Vec::new(), calls: 0, wrote_after_failure: false, polls: 0 };
+    let mut res = RunResult { returned: false, panicked: None, spun: false, parked_on_read: false, in_read: 0, out: Vec::new(), log: Vec::new(), calls: 0, wrote_after_failure: false, polls: 0, permit_early: None, permit_stuck: false };
     if stop_first { if let Some(r) = runner.take() { drop(r.shutdown()); } }
+    let mut permit_early: Option<String> = None;
     let outcome = catch_unwind(AssertUnwindSafe(|| {
         let mut fut = Box::pin(token.run(io_r, io_w, handler));
         let budget = 4 * (case.bytes.len() as u64 + 64) * 8 + 2000;
@@ -543,14 +557,33 @@ pub fn execute_with(case: &Case, h: &[Vec<Value>], random: Option<rand::rngs::St
             if polls > budget { return (false, true, polls); }
             flag.0.store(false, Ordering::SeqCst);
             if fut.as_mut().poll(&mut Context::from_waker(&waker)).is_ready() { return (true, false, polls); }
+            // C13: while the connection is suspended inside run(), its token's slot must not be available to anyone else
+            if let Some(r) = runner.as_ref() {
+                let probe = r.get_token();
+                futures_util::pin_mut!(probe);
+                if probe.poll(&mut Context::from_waker(&probe_waker)).is_ready() && permit_early.is_none() {
+                    let s = shared.lock().unwrap_or_else(std::sync::PoisonError::into_inner);
+                    permit_early = Some(format!("after {} inbound / {} outbound bytes", s.in_read, s.out.len()));
+                }
+            }
             let (again, stop_now) = { let mut s = shared.lock().expect("mock lock"); let a = std::mem::take(&mut s.self_wake); let st = std::mem::take(&mut s.stop_now); (a, st) };
             if stop_now { if let Some(r) = runner.take() { drop(r.shutdown()); } }
             if again || stop_now || flag.0.load(Ordering::SeqCst) { continue; }
             return (false, false, polls);
         }
     }));
+    res.permit_early = permit_early;
     match outcome {
-        Ok((returned, spun, polls)) => { res.returned = returned; res.spun = spun; res.polls = polls; },
+        Ok((returned, spun, polls)) => {
+            res.returned = returned; res.spun = spun; res.polls = polls;
+            if returned {
+                if let Some(r) = runner.as_ref() {
+                    let probe = r.get_token();
+                    futures_util::pin_mut!(probe);
+                    res.permit_stuck = probe.poll(&mut Context::from_waker(&probe_waker)).is_pending();
+                }
+            }
+        },
         Err(p) => res.panicked = Some(p.downcast_ref::<String>().cloned().or_else(|| p.downcast_ref::<&str>().map(|s| s.to_string())).unwrap_or_else(|| "panic".into())),
     }
     let s = shared.lock().unwrap_or_else(std::sync::PoisonError::into_inner);
@@ -575,6 +608,7 @@ pub fn owns(prop: &str, field: &str) -> bool {
         "wrflag" => matches!(prop, "C09"),
         "err" => matches!(prop, "C09" | "C11" | "C12"),
         "owed" => matches!(prop, "C08"),
+        "permit" => matches!(prop, "C13"),
         "after-failure" => matches!(prop, "C12"),
         _ => false,
     }
@@ -604,6 +638,8 @@ pub fn compare(case: &Case, obs: &Obs, r: &RunResult) -> (Vec<Mismatch>, Vec<Str
         }
     }
     if r.wrote_after_failure { mm.push(Mismatch { field: "after-failure", what: "the transport was written to again after a failed write".into() }); }
+    if let Some(w) = &r.permit_early { mm.push(Mismatch { field: "permit", what: format!("a request for a token completed while the connection holding the last slot was still running ({w}): more live tokens than max_conns") }); }
+    if r.permit_stuck { mm.push(Mismatch { field: "permit", what: "the connection's slot is still taken after Token::run returned".into() }); }
     // outbound bytes
     let mut want = Vec::new();
     let mut reqno = 0usize;
